@@ -177,6 +177,34 @@ def body_factory(ctx):
                         follow_up(jb, what)
                         ctx.note_case({"cfg": {k_: v for k_, v in cfg.items() if k_ != "spec"}, "bad_source": label,
                                        "problem": fingerprint(spec)}, True, ["point:invalid source " + label, "api:" + cfg["api"]])
+                # ---------------------------------------------------------------- invalid data argument, then the same call again
+                if cfg["source"] in ("object", "mem"):
+                    jb = make_joker(faults.FaultyPool(schwimmbad.SerialPool(), size=1))
+                    faults.reset(None)
+                    try:
+                        call(jb)                        # a good call first: whatever the sampler keeps from it must not leak
+                    except Exception as e_:
+                        raise Violation("fault-free call raised %s: %s" % (type(e_).__name__, str(e_)[:200]))
+                    bad_data = [data, data]             # two sources, but the prior has no offset parameter: must be refused
+                    mem_ = cfg["source"] == "mem"
+                    for attempt in (1, 2):
+                        try:
+                            if cfg["api"] == "mll":
+                                r_ = jb.marginal_ln_likelihood(bad_data, lib, in_memory=mem_)
+                            elif cfg["api"] == "rej":
+                                r_ = jb.rejection_sample(bad_data, lib, in_memory=mem_)
+                            else:
+                                r_ = jb.iterative_rejection_sample(bad_data, lib, n_requested_samples=2, in_memory=mem_)
+                        except Exception:
+                            continue
+                        raise Violation("%s with a data argument that does not match the prior (2 sources, no offsets) returned a "
+                                        "result on attempt %d after a successful call on the same TheJoker (a failed call must not "
+                                        "be answered from what an earlier call left behind)" % (cfg["api"], attempt), returned=type(r_).__name__)
+                    what = "%s after two refused calls with invalid data" % cfg["api"]
+                    post_checks(jb, what)
+                    follow_up(jb, what)
+                    ctx.note_case({"cfg": {k_: v for k_, v in cfg.items() if k_ != "spec"}, "bad_data": "2 sources / 0 offsets",
+                                   "problem": fingerprint(spec)}, True, ["point:invalid data, retried", "api:" + cfg["api"]])
                 # ---------------------------------------------------------------- a failure that arises by itself in the workers
                 if cfg["multipool"] and cfg["source"] in ("object", "file"):
                     # a library that lacks a column the sampler needs: reading it fails inside the worker processes; the
